@@ -433,6 +433,7 @@ func C18(r *explore.Run) {
 		var asts []kept
 		var results []keptResult
 		var args []keptArg
+		usedCall := map[int]bool{}
 		var hist []string
 		for step := 0; step < n; step++ {
 			nalt := 1 + nc + no*len(asts)
@@ -443,6 +444,7 @@ func C18(r *explore.Run) {
 			k--
 			if k < nc {
 				call := purityCalls[k]
+				usedCall[k] = true
 				hist = append(hist, call.name)
 				c.Input(strings.Join(hist, " ; "))
 				var obs string
@@ -567,6 +569,10 @@ func C18(r *explore.Run) {
 				}
 			}
 			for j, call := range purityCalls {
+				// histories longer than 3 calls re-observe only their own calls (all calls for the shorter ones)
+				if len(hist) > 3 && !usedCall[j] {
+					continue
+				}
 				o, _ := call.run()
 				transitions++
 				if o != initialObs[j] {
